@@ -17,7 +17,15 @@ import (
 
 type Rand struct{ s uint64 }
 
-func NewRand(seed uint64) *Rand { return &Rand{s: seed*0x9E3779B97F4A7C15 + 0x1234567} }
+// NewRand: the seed is scrambled through the output mixer first - with a plain `seed*G + c` start state the
+// streams of seeds n and n+1 are the same sequence shifted by one draw (the step is +G), so "three seeds" could
+// re-align into one.
+func NewRand(seed uint64) *Rand {
+	z := seed*0x9E3779B97F4A7C15 + 0x1234567
+	z = (z ^ (z >> 30)) * 0xBF58476D1CE4E5B9
+	z = (z ^ (z >> 27)) * 0x94D049BB133111EB
+	return &Rand{s: z ^ (z >> 31)}
+}
 
 func (r *Rand) U64() uint64 {
 	r.s += 0x9E3779B97F4A7C15
